@@ -156,6 +156,7 @@ def run(ctx, impl_only=False):
         u = gt.edits(t, ctx.rng.randint(1, 3))
         w = ctx.rng.choice([lambda x: x, lambda x: [x, 0], lambda x: {'t': x}])
         pairs.append((w(t), w(u)))
+    pairs += FAM.rich_pairs(ctx, n // 3)           # Decimal, bytes, aware datetimes, date, time, timedelta, UUID, complex, frozenset leaves
     lines, metas = [], []
     nsp = len(special_pairs())
     for i, (t1, t2) in enumerate(pairs):
@@ -204,7 +205,9 @@ def run(ctx, impl_only=False):
             return DL.py_eq_t(copy.deepcopy(t1) + Delta(DeepDiff(t1, t2, **kw)), t2)
         except Exception:
             return False
+    import datetime as _dt
     wit = {
+        'F42': lambda: same([_dt.datetime(2020, 1, 1, 2, 3)], [_dt.datetime(2021, 5, 6)]),
         'F4b': lambda: same([([], {1})], [([], {1, 'b'})]),
         'F4c': lambda: same([((1, 2), 0)], [((1, 3), 0)]),
     }
